@@ -376,6 +376,9 @@ class FnAlloc:
             if t.op == "ret":
                 v = t.ops[0] if t.ops else None
                 if v is not None and v["k"] == "inst" and v["v"] in e: v = e[v["v"]]
+                elif v is not None and v["k"] == "inst" and fn.imap[v["v"]].op == "phi" and fn.imap[v["v"]].block is blk:
+                    inc = next((c for c in fn.imap[v["v"]]["incoming"] if c["b"] == p), None)        # what this path hands to the return (`return discard_(x)`)
+                    if inc is not None: v = inc["v"]
                 out.append((t, v, p))
                 continue
             if t.op == "unreachable": continue
